@@ -81,6 +81,11 @@ func backendRaceOps() []raceOp {
 				return nil
 			})
 		}},
+		// a walk given up at its first entry, a dump into a writer that fails: the abort paths (and whatever they log)
+		{"WalkAborted", false, func(in *raceInst, g, i int) {
+			_, _ = in.be.Walk(func([]byte, interface{}, time.Time) error { return errWalkAborted })
+		}},
+		{"DumpFailingWriter", false, func(in *raceInst, g, i int) { _, _ = in.be.Dump(&failingWriter{left: 20}) }},
 		{"Dump", false, func(in *raceInst, g, i int) { _, _ = in.be.Dump(io.Discard) }},
 		{"Restore", true, func(in *raceInst, g, i int) { _, _ = in.be.Restore(bytes.NewReader(in.dump)) }},
 		{"LoadStore", true, func(in *raceInst, g, i int) {
@@ -104,10 +109,18 @@ func makeBackendInst(kind string, strategy cache.EvictionStrategy) func() *raceI
 }
 
 func makeBackendInstTTL(kind string, strategy cache.EvictionStrategy, cfgTTL time.Duration) func() *raceInst {
+	return makeBackendInstLogged(kind, strategy, cfgTTL, false)
+}
+
+// makeBackendInstLogged: with logged, the cache has a logger that accepts every level and a stats tracker.
+func makeBackendInstLogged(kind string, strategy cache.EvictionStrategy, cfgTTL time.Duration, logged bool) func() *raceInst {
 	return func() *raceInst {
 		cfg := cache.Config{
 			TimeToLive: cfgTTL, EvictionStrategy: strategy, CountSoftLimit: 6, EvictFraction: 0.3,
 			DeleteExpiredJobInterval: farFuture, DeleteExpiredAfter: time.Hour, ItemsCountReportInterval: farFuture,
+		}
+		if logged {
+			cfg.Logger, cfg.Stats = sinkLogger{}, newCountTracker()
 		}
 		be := newBackend(kind, cfg)
 
@@ -248,6 +261,10 @@ var raceSubjects = func() []raceSubject {
 		for s, sn := range []string{"MostExpired", "LRU", "LFU"} {
 			subs = append(subs, raceSubject{name: kind + "/" + sn, make: makeBackendInst(kind, cache.EvictionStrategy(s)), ops: backendRaceOps()})
 		}
+	}
+
+	for _, kind := range backendKinds {
+		subs = append(subs, raceSubject{name: kind + "/LRU/logger+stats", make: makeBackendInstLogged(kind, cache.EvictLeastRecentlyUsed, time.Hour, true), ops: backendRaceOps()})
 	}
 
 	for _, kind := range backendKinds {
